@@ -145,21 +145,28 @@ public:
       return TraceState::GetDefault();
     }
     auto allocate_size = curr_size;
-    if (curr_size < kMaxKeyValuePairs)
+    std::string unused;
+    const bool key_exists = kv_properties_->GetValue(key, unused);
+    const bool add_key    = key_exists || curr_size < kMaxKeyValuePairs;
+    if (!key_exists && add_key)
     {
       allocate_size += 1;
     }
     nostd::shared_ptr<TraceState> ts(new TraceState(allocate_size));
-    if (curr_size < kMaxKeyValuePairs)
+    if (add_key)
     {
       // add new field first
       ts->kv_properties_->AddEntry(key, value);
     }
-    // add rest of the fields.
-    kv_properties_->GetAllEntries([&ts](nostd::string_view key, nostd::string_view value) {
-      ts->kv_properties_->AddEntry(key, value);
-      return true;
-    });
+    // add rest of the fields, skipping the previous entry of an updated key.
+    kv_properties_->GetAllEntries(
+        [&ts, &key, add_key](nostd::string_view e_key, nostd::string_view e_value) {
+          if (!add_key || key != e_key)
+          {
+            ts->kv_properties_->AddEntry(e_key, e_value);
+          }
+          return true;
+        });
     return ts;
   }
 
